@@ -49,6 +49,7 @@ type gcScenario struct {
 	CloseAfter int         `json:"close_after"` // Close the Pub/Sub after this many publish calls returned (-1: at the end only)
 	Closers    int         `json:"closers"`     // concurrent Close callers
 	PubAfter   bool        `json:"pub_after"`   // a Publish and a Subscribe after Close returned
+	CloseOnHook string     `json:"close_on_hook,omitempty"` // Close is called when this hook point is first reached
 	Forced     string      `json:"forced"`      // name of the forced overlap, "" for random
 
 	Events   []hookrt.Event `json:"events"`
@@ -287,6 +288,13 @@ func gcRun(rt *hookrt.Runtime, sc *gcScenario, rng *rand.Rand) {
 			go func(c int) { defer wgClose.Done(); closeOnce(c) }(c)
 		}
 	}
+	if sc.CloseOnHook != "" {
+		go func() {
+			if decoWaitCount(rt, sc.CloseOnHook, 1, 2*time.Second) {
+				startClose()
+			}
+		}()
+	}
 	if sc.CloseAfter == 0 {
 		// Close while the first Publish call is under way (it has passed its closed check)
 		go func() {
@@ -478,6 +486,14 @@ func gcForce(rt *hookrt.Runtime, sc *gcScenario) {
 		// the fan-out goroutine walks its subscriber snapshot after Publish released its locks:
 		// hold it until an earlier-registered subscription has been removed from the list
 		rt.AddRule(&hookrt.ParkRule{Point: "gochannel.publish.fanout_start", Nth: 1, Until: "gochannel.unsubscribe.wg_done", Timeout: T})
+	case "subscribe.replay x Close":
+		// a late subscription has read the stored history and is about to walk it: Close runs meanwhile
+		// (it cannot get past its wait for the subscriptions before the replay is done)
+		rt.AddRule(&hookrt.ParkRule{Point: "gochannel.subscribe.replay", Nth: 1, Until: "gochannel.close.nil_persisted", Timeout: T})
+	case "teardown.woken x queued Sender":
+		// the teardown goroutine is held between waking up on the cancelled context and s.Close():
+		// the Sender waiting for the Ack and the Senders queued behind it must stay where they are
+		rt.AddRule(&hookrt.ParkRule{Point: "gochannel.teardown.woken", Nth: 1, Until: "api.never", Timeout: T})
 	case "publish.wait_ack x Subscribe":
 		// a Subscribe arriving while a blocking batch Publish waits for the Ack of its first message
 		// (no park rule: the first consumer is slow (80 ms per message), the second Subscribe starts at the wait_ack hook)
@@ -490,6 +506,7 @@ var gcForcedNames = []string{
 	"send.before_chan x Close", "send.locked x cancel", "sub.close.before_lock x Nack",
 	"unsubscribe.before_remove x Close", "unsubscribe.wrequest x Publish", "close.signalled x Subscribe",
 	"subscribe.wg_added x Close", "publish.wait_ack x cancel", "publish.fanout x cancel", "publish.wait_ack x Subscribe",
+	"teardown.woken x queued Sender", "subscribe.replay x Close",
 }
 
 var gcMode string
@@ -603,6 +620,23 @@ func gcGenerate(rng *rand.Rand, id int, forced string) *gcScenario {
 			{Topic: t, Behaviour: []int{0}, CancelAt: -1},
 			{Topic: t, Behaviour: []int{0}, CancelAt: -1},
 		}
+	case "subscribe.replay x Close":
+		sc.Persistent = true
+		sc.CloseAfter = -1
+		sc.CloseOnHook = "gochannel.subscribe.replay"
+		t := sc.Pubs[0].Topic
+		msg += 3
+		sc.Pubs = []gcPubSpec{{Topic: t, Calls: [][]int{{msg - 2, msg - 1, msg}}}}
+		sc.Subs = []gcSubSpec{{Topic: t, Behaviour: []int{0}, CancelAt: -1, StartAt: 1}}
+	case "teardown.woken x queued Sender":
+		// one subscription takes the first message, leaves it unsettled, is cancelled and keeps reading;
+		// two more messages are queued behind the unsettled one
+		sc.Blocking = false
+		sc.CloseAfter = -1
+		t := sc.Pubs[0].Topic
+		msg += 3
+		sc.Pubs = []gcPubSpec{{Topic: t, Calls: [][]int{{msg - 2}, {msg - 1, msg}}}}
+		sc.Subs = []gcSubSpec{{Topic: t, Behaviour: []int{2}, CancelAt: 1, Drain: true}}
 	case "publish.wait_ack x Subscribe":
 		sc.Blocking = true
 		sc.Persistent = true
